@@ -32,6 +32,9 @@ fn usable<T: HLabel>(built: &Built<T>, t: &Target) -> Vec<Enc> {
     t.ty.configs(t.kind)
         .into_iter()
         .filter(|e| !(*e == Enc::ExpCo && cost > EXP_COST_LIMIT))
+        // objects built by the factory-less constructor carry no monitor (no call cap, no wall-clock cap):
+        // not on frameworks where one enumeration may legitimately be huge
+        .filter(|e| !(*e == Enc::New && built.labels.len() > 40))
         .collect()
 }
 
@@ -386,6 +389,11 @@ fn cli_one(ctx: &mut Ctx, case: &StaticCase, file: &std::path::Path, prob: &str,
                 continue;
             }
             for cert in [false, true] {
+                // the sweep keeps three corners of the backend x certificate square (a process costs 50 ms):
+                // embedded / status only, msat / status only, kissat / certificate
+                if sweep && cert != (ext == Some("kissat")) {
+                    continue;
+                }
                 if ext.is_some() && cert && enc.is_some() {
                     continue; // keep the number of processes moderate
                 }
